@@ -173,7 +173,7 @@ Qed.
 Lemma drawing_step_run opcode b its d b' out : drawing_step opcode b = (its, StepOk d b') ->
   runl (payloads its) (PIdle, out) = (PIdle, out ++ calls_of its).
 Proof.
-  unfold drawing_step. cbv zeta beta.
+  unfold drawing_step, draw_group. cbv zeta beta.
   destruct (opcode <? 224).
   { set (cfg := if _ <? 2 then _ else _). destruct cfg as [[op ncoords] nreps] eqn:Ecfg.
     assert (K : (op = opA \/ op = opa \/ (op <> opA /\ op <> opa /\ ncoords = op_arity op /\ (1 <= ncoords)%nat)) /\ 1 <= nreps).
